@@ -23,14 +23,14 @@ type Decision struct {
 }
 
 type Config struct {
-	MaxSteps     int
-	MaxDepth     int
-	MaxPaths     int
-	TimeoutMs    int
-	Workers      int
-	SolverBin    string
-	KeepSMT      bool
-	WallBudget   time.Duration
+	MaxSteps   int
+	MaxDepth   int
+	MaxPaths   int
+	TimeoutMs  int
+	Workers    int
+	SolverBin  string
+	KeepSMT    bool
+	WallBudget time.Duration
 }
 
 type Finding struct {
@@ -48,8 +48,8 @@ type Finding struct {
 
 type stats struct {
 	instrs, rtChecks, symIdxReads, rangeCopies, goroutines int
-	obligations, discharged                               int
-	branches, selects                                     int
+	obligations, discharged                                int
+	branches, selects                                      int
 }
 
 type poolState struct {
@@ -76,60 +76,61 @@ type Exec struct {
 
 	pcond []*Term
 
-	gs          []*G
-	cur         *G
-	mainG       *G
-	nextG       int
-	nextID      int
-	waiters     map[*ChanV][]*waiter
-	schedFork   bool
-	maxPreempt  int
-	preemptions int
-	preempted   map[syncKey]bool
+	gs                           []*G
+	cur                          *G
+	mainG                        *G
+	nextG                        int
+	nextID                       int
+	waiters                      map[*ChanV][]*waiter
+	schedFork                    bool
+	schedChoiceCap, schedChoices int
+	maxPreempt                   int
+	preemptions                  int
+	preempted                    map[syncKey]bool
 
 	globals  map[*ssa.Global]*Cell
 	initDone map[*ssa.Package]bool
 	initing  bool
 
-	inputs    []inputRec
-	inputCnt  map[string]int
-	freshCnt  int
-	steps     int
-	stats     stats
-	funcs     map[string]int
-	findings  []Finding
-	reached   map[string]bool
-	incon     []string
-	events    []string
-	trace     []string
-	samples   []string
-	ended     string
+	inputs   []inputRec
+	inputCnt map[string]int
+	freshCnt int
+	steps    int
+	stats    stats
+	funcs    map[string]int
+	findings []Finding
+	reached  map[string]bool
+	incon    []string
+	events   []string
+	trace    []string
+	samples  []string
+	ended    string
 
-	mutexes   map[*Cell]*mutexState
-	wgs       map[*Cell]*wgState
-	atomVals  map[*Cell]Value
-	raceOn    bool
-	races     map[string]bool
-	aead      *aeadState
-	sinks     []sinkEvent
-	clockLast *Term
-	opaqueN   int
-	lockEdges map[string]bool
-	userState map[string]Value
-	lockWaiters []*G
-	findKey string
-	onlyFilter string
-	onlyCaller *G
-	onlyDone   map[*G]bool
-	records []string
-	pools   map[*Cell]*poolState
-	randCalls int
-	randFaultAt int
-	syncMaps map[*Cell]*MapV
+	mutexes      map[*Cell]*mutexState
+	wgs          map[*Cell]*wgState
+	atomVals     map[*Cell]Value
+	raceOn       bool
+	races        map[string]bool
+	aead         *aeadState
+	sinks        []sinkEvent
+	clockLast    *Term
+	opaqueN      int
+	lockEdges    map[string]bool
+	userState    map[string]Value
+	lockWaiters  []*G
+	findKey      string
+	onlyFilter   string
+	onlyCaller   *G
+	onlyDone     map[*G]bool
+	records      []string
+	pools        map[*Cell]*poolState
+	randCalls    int
+	randFaultAt  int
+	syncMaps     map[*Cell]*MapV
 	failedAlways int
-	shared  *sync.Map
+	shared       *sync.Map
 	initTopInstr ssa.Instruction
-	initTopIP int
+	initTopIP    int
 	initTopBlock *ssa.BasicBlock
 }
 
@@ -382,21 +383,21 @@ func (e *Exec) concretize(t *Term, why string) uint64 {
 // ---------------------------------------------------------------------------
 
 type RunResult struct {
-	Pending   [][]Decision
-	Findings  []Finding
-	Reached   map[string]bool
-	Incon     []string
-	Stats     stats
-	Funcs     map[string]int
-	Ended     string
-	Steps     int
-	Events    []string
-	Sample    string
-	Infeasible bool
+	Pending             [][]Decision
+	Findings            []Finding
+	Reached             map[string]bool
+	Incon               []string
+	Stats               stats
+	Funcs               map[string]int
+	Ended               string
+	Steps               int
+	Events              []string
+	Sample              string
+	Infeasible          bool
 	Sat, Unsat, Unknown int
-	SolveTime time.Duration
-	Terms     int
-	Records   []string
+	SolveTime           time.Duration
+	Terms               int
+	Records             []string
 }
 
 // runPath executes one path of the harness given a decision prefix.
@@ -501,22 +502,22 @@ func shortPath(p string) string {
 // ---------------------------------------------------------------------------
 
 type HarnessResult struct {
-	Harness   string
-	Paths     int
-	Infeasible int
-	Findings  []Finding
-	Reached   map[string]bool
-	Incon     []string
-	Stats     stats
-	Funcs     map[string]int
+	Harness             string
+	Paths               int
+	Infeasible          int
+	Findings            []Finding
+	Reached             map[string]bool
+	Incon               []string
+	Stats               stats
+	Funcs               map[string]int
 	Sat, Unsat, Unknown int
-	SolveTime time.Duration
-	Wall      time.Duration
-	Steps     int
-	Samples   []string
-	Truncated bool
-	Ends      map[string]int
-	Records   []string
+	SolveTime           time.Duration
+	Wall                time.Duration
+	Steps               int
+	Samples             []string
+	Truncated           bool
+	Ends                map[string]int
+	Records             []string
 }
 
 // explore runs all paths of a harness with a pool of workers.
